@@ -48,6 +48,26 @@ def verdict (src : List Char) (o : Outcome) : String × String :=
       else if !sortedOffs ts then ("viol:order", "-")
       else ("ok", "-")
 
+/-- the shape/crash part of the specification evaluated on the IMPLEMENTATION's answer (so that a broken implementation yields a
+    concrete failing input even when it also disagrees with the model) -/
+def implVerdict (impl : String) : Option String :=
+  match Sexp.parse impl with
+  | some (.list (.atom "lex" :: items)) =>
+    let kindOf : Sexp → Option String
+      | .list (.atom "t" :: .atom k :: _) => some k
+      | _ => none
+    let isTag (tag : String) : Sexp → Bool
+      | .list (.atom a :: _) => a = tag
+      | _ => false
+    if items.any (isTag "crash") then some "viol:crash(impl)"
+    else if items.any (isTag "runaway") then some "viol:does-not-terminate(impl)"
+    else if items.any (isTag "e") then none
+    else
+      let ks := items.filterMap kindOf
+      let cnt (k : String) := (ks.filter (· = k)).length
+      if ks.getLast? ≠ some "EOF" || cnt "Indent" ≠ cnt "Dedent" then some "viol:shape(impl)" else none
+  | _ => if impl.isEmpty then none else some "viol:impl-output-unparsable"
+
 def handle (line : String) : String :=
   match splitTabs line with
   | id :: input :: _ =>
@@ -56,6 +76,10 @@ def handle (line : String) : String :=
       let lg := id.startsWith "L:"
       let o := lexAll lg s
       let (v, k) := verdict s o
+      let impl := (splitTabs line).getD 2 ""
+      let (v, k) := match (if lg then none else implVerdict impl) with
+        | some iv => (iv, "-")
+        | none => (v, k)
       id ++ "\t" ++ outSexp o ++ "\t" ++ v ++ "\t" ++ k
     | _ => id ++ "\tbad-input\t-\t-"
   | _ => "?\tbad-line\t-\t-"
